@@ -99,6 +99,9 @@ TDrainSnapshot == IsEvent("DrainSnapshot") /\ DrainSnapshot(Ev.t)
                     \* cancellation D has already accounted for but whose handler has not unwound yet
                     /\ inflight[Ev.t] \subseteq ToSetOf(Ev.rs)
                     /\ \A r \in ToSetOf(Ev.rs) \ inflight[Ev.t] : rq[r].pc = "done"
+\* the drain goroutine has stopped waiting (everything finished, or the deadline fired) and is at the hook drain_deadline
+TDrainWaited   == IsEvent("DrainWaited") /\ dr[Ev.t] = "waiting" /\ Stutter
+\* ... and goes on from it: what is still running is cancelled now
 TDrainDeadline == IsEvent("DrainDeadline") /\ (DrainWaitDone(Ev.t) \/ DrainDeadline(Ev.t))
 
 (* ---- requests ---- *)
@@ -132,7 +135,7 @@ TRecv       == IsEvent("Recv") /\
 Consume ==
   \/ TProbeResult \/ THcApply \/ TRotation \/ THcNotified \/ THcClose \/ TRemove
   \/ TDepCall \/ TRdCall \/ TRsSet \/ TRsStop \/ TDepHealthy \/ TUpdateLb \/ TInstall \/ TDepDrained \/ TPc \/ TNotFound \/ TPreRet \/ TRet
-  \/ TDrainStart \/ TTargetState \/ TDrainSnapshot \/ TDrainDeadline
+  \/ TDrainStart \/ TTargetState \/ TDrainSnapshot \/ TDrainWaited \/ TDrainDeadline
   \/ TSend \/ TRouted \/ TGate \/ TReleased \/ TGatePassed \/ TPreClaim \/ TClaim \/ TClaimRefused \/ TClaimNone
   \/ TBegin \/ TEndInflight \/ TRecv
 
